@@ -55,7 +55,9 @@ Full statement / proved / missing
 * file-based loading (`Model/InstantiateOnce.lean`: the lock-table / name-mutex / double-check protocol of
   `fileBasedLoader.instantiate`, including the deletion of the mutex from the table after unlocking):
   `C13_once` — under every interleaving the instantiator of a name runs at most once; `C13_once_bound` — and exactly once
-  for every name that is bound, whose value is the one its file holds; `C13_placeholder_visible` — the known finding
+  for every name that is bound, whose value is the one its file holds; `C13_once_errors` / `C13_broken_never_bound` — the
+  same with files whose instantiator raises (parse error, wrong definition): read at most once, never bound;
+  `C13_placeholder_visible` — the known finding
   C13-placeholder-of-running-instantiation-visible is real in the model: a lookup answers not-found for a name with a file.
 * the declare / resolve queue (`Model/ConcQueue.lean`: `types.resolvableTypes` — appended to under `resolvableTypesLock`,
   POPPED under the lock by `PopDeclaredTypes` and CONSUMED outside it by `internal.resolveResolvables`; Go slices with
@@ -307,6 +309,30 @@ theorem C13_once_bound (files : List (Key × V)) (progs : List (List FOp)) (c : 
   have h2 := Sourced_reachable (Sourced_init files progs) hr k v hb
   have h3 : 0 < c.reads.count k := List.count_pos_iff.mpr h2.1
   exact ⟨by omega, h2.2⟩
+
+/-- `C13_once` with files whose instantiator RAISES (a parse error, a definition of another name): such a file, too, is
+    read at most once under every interleaving — the panic unwinds through `instantiate`, the name mutex is released, and
+    the placeholder that stays installed keeps every later lookup away from the file -/
+theorem C13_once_errors (files : List (Key × V)) (broken : List (Key × String)) (progs : List (List FOp)) (c : Config)
+    (hr : Reachable (Config.initB files broken progs) c) (k : Key) : c.reads.count k ≤ 1 :=
+  (Inv_reachable (Inv_initB files broken progs) hr).i7 k
+
+/-- … what is bound is still what a (good) file holds, so the name of a file that only raises is never bound -/
+theorem C13_broken_never_bound (files : List (Key × V)) (broken : List (Key × String)) (progs : List (List FOp)) (c : Config)
+    (hr : Reachable (Config.initB files broken progs) c) (k : Key) (hk : fileOf k c.files = none) (v : V) :
+    lk k c.es ≠ some (some v) := by
+  intro hb
+  have := (Sourced_reachable (Sourced_initB files broken progs) hr k v hb).2
+  rw [hk] at this
+  cases this
+
+-- non-vacuity: the file of `a` does not parse; both threads have missed the entry; thread 0 runs the instantiator and
+-- re-raises, thread 1 (which then gets the name mutex and finds the placeholder) answers not-found; the file was read once
+-- and `a` stays a placeholder
+example : let c := executeB [] [("a", "PARSE_ERROR")] [[.load "a"], [.load "a"]] [1, 1, 0, 0, 0, 0, 1, 1]
+    c.th.map (·.log) = [[.reported "PARSE_ERROR"], [.notfound]] ∧ c.reads.count "a" = 1 ∧ lk "a" c.es = some none ∧
+    fileOf "a" c.files = none := by
+  decide
 
 def fileA : List (Key × V) := [("a", .al "A" 1)]
 /-- thread 1 looks `a` up and runs until it is parked between the placeholder and the instantiator; thread 0 then looks
